@@ -36,6 +36,17 @@ def extra_jobs(ctx):
         for f in finals:
             jobs.append(('S', ((ts1, 'always'), (ts2, 'always')), [f],
                          False))
+    # a process that asks for an enormous (or infinite) timestep: every
+    # forced call cuts it to exactly the remaining time
+    import math
+    for ts in (1e17, 2.0 ** 60, math.inf):
+        for sc in ([('update', 5), ('update', 2.5)],
+                   [('run_for', 1.5, False), ('update', 2)],
+                   [('update', 6.5)],
+                   [('run_for', 2.5, True), ('run_for', 1, False),
+                    ('update', 0.5)]):
+            jobs.append(('S', ((ts, 'always'),), sc, False))
+            jobs.append(('S', ((ts, 'always'), (1, 'always')), sc, False))
     # zero-length forcing calls that flush lagging processes
     zero = [[('update', 0)], [('run_for', 0, True)],
             [('run_for', 0, True), ('update', 2)]]
@@ -51,6 +62,74 @@ def extra_jobs(ctx):
                 jobs.append(('S', ((ts, 'always'), (2, 'never')),
                              pre + z, False))
     return jobs
+
+
+# ----------------------------------------------------------------------
+# a compartment is deleted and generated anew under the same key within
+# one tick: the NEW process's intervals tile [its creation, the end]
+
+def regen_jobs(ctx):
+    jobs = []
+    for ts in (1.5, 3, 1, 2.5):
+        for tick in (0, 1, 2):
+            for issuer in ('process', 'step'):
+                jobs.append(('regen', ts, tick, issuer))
+    return jobs
+
+
+def run_regen(job, acc):
+    from vmc import structural as st
+    from vmc import worlds
+    _, ts, tick, issuer = job
+    n = tick if issuer == 'process' else tick + 1
+    op = ('regen', 'X', 'a')
+    spec = st.initial_world(
+        'proc', {'a': ts}, issuer, {n: st.op_update(op, 'proc', ts)},
+        init={'X': ['a'], 'Y': []},
+        op2_script={n: st.op2_update(op, 'proc', ts)})
+    spec['processes']['ticker'] = {
+        'cls': 'P', 'pid': 'ticker', 'ts': 1, 'log_states': False,
+        'schema': {'tk': {'n': dict(st.VAR)}}, 'update': {'tk': {'n': 1}}}
+    spec['topology']['ticker'] = {'tk': ('ticker_store',)}
+    horizon = 7
+    spec['script'] = [('update', horizon)]
+    case = {'family': 'regen', 'job': job}
+    ex = worlds.execute(spec)
+    acc.case(key=job, outcome='regen')
+    acc.validated += 1
+    V = lambda rule, fp, msg: acc.violate(  # noqa
+        fw.violation(rule, fp, msg, case))
+    if ex.error:
+        V('C02.crash', f'regen:{type(ex.error[2]).__name__}',
+          f'{job}: unexpected {ex.error[2]!r}')
+        return
+    first_poll, handed = {}, {}
+    for ev in ex.trace:
+        if ev[0] == 'poll' and ev[2] == 'proc':
+            first_poll.setdefault(ev[1], ev[4])
+        elif ev[0] == 'invoke' and ev[2] == 'proc':
+            handed.setdefault(ev[1], []).append((ev[4], ev[5]))
+    if len(first_poll) != 2:
+        V('C02.coverage', 'regen-world-vacuous',
+          f'{job}: {len(first_poll)} proc instances were polled')
+        return
+    new_uid = max(first_poll)            # uids grow with creation order
+    # the time at which the _generate is applied: the operator's n-th
+    # invocation (a step's update is applied in its phase, a timestep-1
+    # process's one time unit later)
+    issued = [ev[4] for ev in ex.trace
+              if ev[0] == 'invoke' and ev[2] == 'op2' and ev[3] == n]
+    if not issued:
+        V('C02.coverage', 'regen-world-vacuous', f'{job}: never issued')
+        return
+    born = issued[0] + (1 if issuer == 'process' else 0)
+    steps = handed.get(new_uid, [])
+    total = sum(t for _, t in steps)
+    if born is None or abs(total - (horizon - born)) > 1e-9:
+        V('C02.sum', 'regenerated-process-timesteps-do-not-tile-its-life',
+          f'{job}: the process generated at t={born} was handed '
+          f'{[t for _, t in steps]} (invoked at {[a for a, _ in steps]}), '
+          f'which sums to {total}; it lived for {horizon - born}')
 
 
 def para_jobs(ctx):
@@ -115,6 +194,9 @@ def run_para(job, acc):
 
 
 def run_job(job, acc):
+    if job[0] == 'regen':
+        run_regen(job, acc)
+        return
     if job[0] == 'ParA':
         run_para(job, acc)
         return
@@ -132,12 +214,15 @@ def run(ctx):
     acc = ctx.map(run_job, para_jobs(ctx), chunk=4)
     ctx.map(run_job, afamily.a_jobs(ctx), acc=acc, chunk=1)
     ctx.map(run_job, C01.bfs_jobs(ctx), acc=acc, chunk=1)
-    return ctx.map(run_job, C01.s_jobs(ctx) + extra_jobs(ctx), acc=acc)
+    return ctx.map(run_job, C01.s_jobs(ctx) + extra_jobs(ctx) +
+                   regen_jobs(ctx), acc=acc)
 
 
 def replay(case):
     acc = fw.Acc()
-    if case.get('family') == 'ParA':
+    if case.get('family') == 'regen':
+        run_regen(tuple(case['job']), acc)
+    elif case.get('family') == 'ParA':
         fw.preload_forkserver()
         run_para(case['job'], acc)
     elif case.get('family') == 'S':
@@ -148,3 +233,7 @@ def replay(case):
     else:
         afamily.replay(case, acc, MONITORS)
     return [v for exs in acc.viol_examples.values() for v in exs]
+
+
+RULE += (
+    " Also: processes that ask for 1e17, 2**60 or an infinite timestep under forced calls; a compartment deleted and generated anew under the same key in one tick (process / step operators, old process in flight) - the new process's timesteps tile exactly its life.")
